@@ -277,6 +277,13 @@ class Check(Property):
         pre = f"C08 {s!r} {tag}"
         if s == "dimensionless":
             return v
+        # membership agrees with resolution: `s in ureg` is never True for a string get_name refuses
+        if cs:
+            try:
+                if (s in u) and got is None:
+                    v.append(f"{pre}: `in` says the registry knows it, get_name raises {err}")
+            except Exception:  # noqa: BLE001
+                pass
         if cs:
             if s in proj.unit_by_key or self.is_delta_key(s):
                 want = proj.unit_by_key[s]["name"] if s in proj.unit_by_key else None
